@@ -428,3 +428,31 @@ fn c12_record_exists_response_serde_pair_agrees() {
     core::mem::forget(key);
     core::mem::forget(key_toks);
 }
+
+/// messages without a Bytes-backed field: symbolic 32-byte chunk address, shape concrete per harness
+macro_rules! response_roundtrip {
+    ($name:ident, $resp:expr) => {
+        #[kani::proof]
+        #[kani::unwind(40)]
+        fn $name() {
+            let x: [u8; 32] = kani::any();
+            let target = NetworkAddress::from_chunk_address(ant_protocol::storage::ChunkAddress::new(xor_name::XorName(x)));
+            let mk: fn(NetworkAddress) -> Response = $resp;
+            let resp: Response = mk(target);
+            let toks = match to_tokens(&resp) {
+                Ok(t) => t,
+                Err(_) => {
+                    assert!(false, "response does not serialise");
+                    return;
+                }
+            };
+            let back: Result<Response, TokErr> = from_tokens(&toks);
+            match back {
+                Ok(r2) => assert!(r2 == resp, "response changes in a serialise/deserialise round trip"),
+                Err(_) => assert!(false, "Serialize and Deserialize of the response disagree on the data-model shape"),
+            }
+            core::mem::forget(toks);
+        }
+    };
+}
+response_roundtrip!(c12_closest_peers_response_without_peers_roundtrip, |t| Response::Query(QueryResponse::GetClosestPeers { target: t, peers: vec![], signature: None }));
